@@ -3,6 +3,7 @@ package oracle
 import (
 	"bytes"
 	"encoding/hex"
+	"encoding/json"
 	"errors"
 	"fmt"
 	"sort"
@@ -318,8 +319,98 @@ func runC01(t gen.Tier, r *gen.Rng, rep *Reporter) {
 		}
 		checkFieldRoundTrip(rep, spec, v)
 	}
+	// the content of a field is what it holds NOW, however it got there: write one value through
+	// one writer, another through another writer, then Pack / Unpack must reproduce what the
+	// accessors report
+	for i := 0; i < t.N(1200, 30000); i++ {
+		spec := g.Prim(false)
+		if hasNonePrefix(spec) {
+			continue
+		}
+		g.OutOfDomain = false
+		v1, v2 := g.Value(spec, false), g.Value(spec, false)
+		if g.OutOfDomain {
+			continue
+		}
+		checkOverwriteHistory(rep, r, spec, v1, v2)
+	}
 	emitDist(rep, g)
 	rep.Sample("M <generated coherent spec> pack <in-domain content> => unpack into a fresh message: same present ids, canonical values equal, consumed = produced, re-pack identical")
+}
+
+var fieldWriters = []string{"setvalue", "setbytes", "unpack", "json", "marshal-field", "marshal-string", "marshal-bytes", "marshal-zero"}
+
+// writeThrough puts the value of src into f through the named writer; false = not applicable / refused
+func writeThrough(f, src field.Field, v *T, how string) bool {
+	switch how {
+	case "setvalue":
+		return impl.SetValue(f, v)
+	case "setbytes":
+		b, err := src.Bytes()
+		return err == nil && f.SetBytes(b) == nil
+	case "unpack":
+		w, err := src.Pack()
+		if err != nil {
+			return false
+		}
+		_, err = f.Unpack(w)
+		return err == nil
+	case "json":
+		js, err := json.Marshal(src)
+		return err == nil && json.Unmarshal(js, f) == nil
+	case "marshal-field":
+		return f.Marshal(src) == nil
+	case "marshal-string":
+		s, err := src.String()
+		return err == nil && f.Marshal(s) == nil
+	case "marshal-bytes":
+		b, err := src.Bytes()
+		return err == nil && f.Marshal(b) == nil
+	case "marshal-zero":
+		// a zero value: whatever the field makes of it, its content afterwards is what it reports
+		var zs string
+		return f.Marshal(zs) == nil || f.Marshal(&zs) == nil
+	}
+	return false
+}
+
+func checkOverwriteHistory(rep *Reporter, r *gen.Rng, specT, v1, v2 *T) {
+	w1 := fieldWriters[r.Intn(len(fieldWriters)-1)]
+	w2 := fieldWriters[r.Intn(len(fieldWriters))]
+	line := fmt.Sprintf("F %s history %s:%s %s:%s", specT.String(), w1, v1.String(), w2, v2.String())
+	safely(rep, line, func() {
+		s1, ok1 := impl.FieldOfTree(specT)
+		s2, ok2 := impl.FieldOfTree(specT)
+		f, ok3 := impl.FieldOfTree(specT)
+		if !ok1 || !ok2 || !ok3 || !impl.SetValue(s1, v1) || !impl.SetValue(s2, v2) {
+			return
+		}
+		if !writeThrough(f, s1, v1, w1) || !writeThrough(f, s2, v2, w2) {
+			return
+		}
+		holds, err := f.String()
+		if err != nil {
+			return
+		}
+		holdsB, _ := f.Bytes()
+		holdsV := impl.ValueTree(f)
+		packed, err := f.Pack()
+		if err != nil {
+			return
+		}
+		rep.Case(line)
+		fresh, _ := impl.FieldOfTree(specT)
+		if _, err := fresh.Unpack(packed); err != nil {
+			rep.Viol("after two writes to one field, Unpack rejects the bytes Pack produced", line, fmt.Sprintf("packed %x: %v", packed, err))
+			return
+		}
+		got, _ := fresh.String()
+		gotB, _ := fresh.Bytes()
+		if ok, _ := sameValue(canon(specT, impl.ValueTree(fresh)), canon(specT, holdsV)); !ok {
+			rep.Viol("after two writes to one field, Pack encodes something other than the value the field holds", line,
+				fmt.Sprintf("the field reports %q (bytes %x), Pack gave %x, which unpacks to %q (bytes %x)", holds, holdsB, packed, got, gotB))
+		}
+	})
 }
 
 func emitDist(rep *Reporter, g *gen.FieldGen) {
@@ -627,6 +718,31 @@ func runC08(t gen.Tier, r *gen.Rng, rep *Reporter) {
 				rep.Viol("Pack produced bytes for a value longer than the declared maximum / different from the fixed length", line, fmt.Sprintf("%x", out))
 			}
 		})
+		// (c) the bytes available: every proper prefix of a valid encoding announces (by its length
+		// prefix, or by the declared length of a fixed field) more than is there, and must be rejected
+		if vv := g.Value(specT, false); vv != nil {
+			if fc, ok := impl.FieldOfTree(specT); ok && impl.SetValue(fc, vv) {
+				if wire, err := fc.Pack(); err == nil && len(wire) > 0 {
+					cuts := map[int]bool{len(wire) - 1: true, len(wire) / 2: true, 0: true, 1: true}
+					if len(wire) > 2 {
+						cuts[r.Intn(len(wire))] = true
+					}
+					for cut := range cuts {
+						if cut >= len(wire) || cut < 0 {
+							continue
+						}
+						cl := fmt.Sprintf("F %s unpack %s", specT.String(), impl.Hex(wire[:cut]))
+						safely(rep, cl, func() {
+							fu, _ := impl.FieldOfTree(specT)
+							rep.Case(cl)
+							if read, err := fu.Unpack(wire[:cut]); err == nil {
+								rep.Viol("Unpack accepted a field although fewer bytes are available than its length announces", cl, fmt.Sprintf("valid encoding %x cut to %d bytes, read %d", wire, cut, read))
+							}
+						})
+					}
+				}
+			}
+		}
 		// (b) wire image built under a relaxed spec (larger maximum) must be rejected by the strict spec
 		wide := relaxLen(specT, max+3)
 		if strings.HasSuffix(pref, ".F") {
